@@ -4,3 +4,13 @@ add("C08", "exploration",
     "Trusted: num-bigint integer arithmetic as the oracle; values outside the alphabet are covered only through the uniformity of the limb code.",
     "exhaustive cross-product enumeration of a boundary-value alphabet against a big-integer reference model",
     "DESIGN.md section 4 C08")
+add("C09", "exploration",
+    "Fq2, Fq6 and Fq12 arithmetic (add, sub, neg, double, mul, square, inverse, non-residue multiplication, norm, conjugation), Frobenius for k in 0..25 and 10^6+0..11, and the sparse products mul_by_1 / mul_by_01 / mul_by_014 are run on every sparsity mask of the 6/12 Fq coefficients (x several value assignments), on the generators u, v, w and their products, on subfield elements and seeded dense elements, and compared with schoolbook arithmetic in the quotient rings Fq[u]/(u^2+1), Fq2[v]/(v^3-(u+1)), Fq6[w]/(w^2-v) on big integers; Frobenius is compared with x^(q^k) computed from u^q, v^q, w^q. The tower code is straight-line Karatsuba-style formulas whose possible errors are in which coefficient is combined with which - exactly what the mask enumeration separates.",
+    "Trusted: schoolbook quotient-ring arithmetic on num-bigint; x^(q^12)=x; self-certified model inverses. Values outside the alphabet rely on the formulas being polynomial identities (no data-dependent branches in the tower).",
+    "exhaustive enumeration of sparsity masks x operations against a schoolbook quotient-ring model",
+    "DESIGN.md section 4 C09")
+add("C18", "exploration",
+    "sqrt/legendre of Fq, Fr and Fq2, sgn0 of Fq and Fq2 and the orderings are evaluated on alphabets that contain members of every class the code distinguishes (zero, residue, non-residue; for Fq2: in Fq with real or purely imaginary root, purely imaginary, the alpha=-1 branch of the square-root algorithm, norm residue / non-residue), the classes being computed by the reference model (Euler criterion on big integers); all pairs of a sub-alphabet for the Fq2 order.",
+    "Trusted: Euler criterion / Tonelli-Shanks on num-bigint. 'Some square root' is accepted. Elements outside the alphabet rely on the class structure being complete.",
+    "class-complete alphabet enumeration against a big-integer Euler-criterion oracle",
+    "DESIGN.md section 4 C18")
